@@ -1,5 +1,6 @@
 import YaqsModel.Props.C01
 import YaqsModel.Lemmas.Dissipation
+import YaqsModel.Lemmas.AccumulateEnsemble
 
 /-!
 # C03 — noisy circuit trajectories average to ideal gates plus local Lindblad noise  (placement + lottery part)
@@ -638,5 +639,221 @@ example : star (cxX *ᵥ (![1, 0] : Fin 2 → ℂ)) ⬝ᵥ (cxX *ᵥ ![1, 0]) = 
   · intro p hp
     simp only [cxProcs, List.mem_cons, List.not_mem_nil, or_false] at hp
     rcases hp with rfl | rfl <;> norm_num
+
+end Yaqs.Consistency
+
+/-!
+# C03/C01, extension 2 — accumulation of the local errors over the time grid (Lady Windermere's fan), as a theorem
+
+`c01_local_error_quadratic` / `c03_local_error_quadratic` bound the error of ONE step by `C·dt²` (`C·s²`).  What `c01_full` /
+`c03_full` still listed as cited is the step from there to the global error `O(m·dt²) = O(T·dt)` after `m = T/dt` steps.
+This section proves it.
+
+* Abstract (`Lemmas/Accumulate.lean`, any seminormed group): `global_error_accumulation` (stability of the scheme, local
+  error along the exact solution), its contractive (`K = 0`) and exponential (`K > 0`) corollaries, and `c03_halving`.
+* Instantiation (`Lemmas/AccumulateEnsemble.lean`): the trajectory average after `k` steps is the state
+  `ensState (ens k) = Σ w_i ψ_iψ_i†` of a finite ensemble of weighted unit vectors; one step maps it to
+  `ensStep Ls (A dt) (ens k) = Σ w_i · pureAverage Ls (A dt ψ_i)` (each member replaced by its branch average, the matrix of
+  `c01_average_is_lottery_expectation`).  The averaged one-step map is *not* a function of the averaged state
+  (`pureAverage` is nonlinear in `ψ`), so the fan is used in its flow-stable form (`accumulate_flow_seminorm`): the exact
+  flow `exp(dt𝓛)` is linear, hence the one-step defect of the ensemble is the weighted mean of the members' local errors
+  (`ens_local`), and stability is needed for `exp(dt𝓛)` only.
+
+Status of the hypotheses of `c03_first_order_global`:
+  THEOREMS   — the shape of the local bound (`C·dt²` per unit vector: `c01_local_error_quadratic`, restated in the
+               max-entry seminorm as `c03_local_bound_pointwise`); linearity and the semigroup law of the exact flow
+               (`lindFlow_add`, `lindFlow_grid`); the accumulation itself.
+  ASSUMPTIONS — (a) *uniformity* of the local constant `C` over the unit vectors met along the grid (xa01's theorem gives
+               `C`, `δ` per vector; uniformity over the compact unit sphere is not proved); (b) the stability constant
+               `K` of `exp(dt𝓛)` in the chosen seminorm (`K = 0` in trace norm because `exp(dt𝓛)` is CPTP; not proved
+               here, and in the max-entry norm `K` is some finite constant of `𝓛`); (c) that the ensemble after a step is
+               the branch ensemble, i.e. `ensState (ens (k+1)) = ensStep …` (this is `c01_lottery_expectation` member by
+               member; it is taken as the definition of the sequence).
+-/
+namespace Yaqs.Accumulate
+
+open Finset
+
+/-- **C03.7 `global_error_accumulation`** (Lady Windermere's fan; pure mathematics) In any seminormed group: scheme
+    `x (k+1) = Φ (x k)`, exact grid solution `y (k+1) = E (y k)`, stability `‖Φ a − Φ b‖ ≤ (1+K·dt)‖a − b‖` and local error
+    `‖Φ (y k) − E (y k)‖ ≤ C·dt²` along the exact solution  ⇒
+    `‖x n − y n‖ ≤ (1+K·dt)ⁿ‖x 0 − y 0‖ + C·dt²·Σ_{j<n}(1+K·dt)ʲ`. -/
+theorem global_error_accumulation {E : Type*} [SeminormedAddCommGroup E] (Φ Ex : E → E) (x y : ℕ → E)
+    (K C dt : ℝ) (hK : 0 ≤ K) (hdt : 0 ≤ dt) (n : ℕ)
+    (hx : ∀ k < n, x (k + 1) = Φ (x k)) (hy : ∀ k < n, y (k + 1) = Ex (y k))
+    (hstab : ∀ a b, ‖Φ a - Φ b‖ ≤ (1 + K * dt) * ‖a - b‖)
+    (hloc : ∀ k < n, ‖Φ (y k) - Ex (y k)‖ ≤ C * dt ^ 2) :
+    ‖x n - y n‖ ≤ (1 + K * dt) ^ n * ‖x 0 - y 0‖ + C * dt ^ 2 * ∑ j ∈ range n, (1 + K * dt) ^ j :=
+  accumulate_scheme Φ Ex x y _ _ (by nlinarith [mul_nonneg hK hdt]) n hx hy hstab hloc
+
+/-- **C03.7a `global_error_accumulation_contractive`** (`K = 0`: non-expansive scheme, e.g. a CPTP map in trace norm) the
+    global error is at most the initial error plus `n` local errors, and on a grid `n·dt = T` that is
+    `‖x 0 − y 0‖ + C·T·dt` — first order. -/
+theorem global_error_accumulation_contractive {E : Type*} [SeminormedAddCommGroup E] (Φ Ex : E → E) (x y : ℕ → E)
+    (C dt T : ℝ) (n : ℕ) (hT : n * dt = T)
+    (hx : ∀ k < n, x (k + 1) = Φ (x k)) (hy : ∀ k < n, y (k + 1) = Ex (y k))
+    (hstab : ∀ a b, ‖Φ a - Φ b‖ ≤ ‖a - b‖)
+    (hloc : ∀ k < n, ‖Φ (y k) - Ex (y k)‖ ≤ C * dt ^ 2) :
+    ‖x n - y n‖ ≤ ‖x 0 - y 0‖ + n * (C * dt ^ 2) ∧ ‖x 0 - y 0‖ + n * (C * dt ^ 2) = ‖x 0 - y 0‖ + C * T * dt := by
+  have h := accumulate_scheme Φ Ex x y 1 (C * dt ^ 2) zero_le_one n hx hy (by simpa using hstab) hloc
+  constructor
+  · simpa [mul_comm] using h
+  · rw [← hT]; ring
+
+/-- **C03.7b `global_error_accumulation_exp`** (`K ≥ 0`) with `(1+K·dt)ⁿ ≤ e^{K·n·dt}`: for `n·dt = T`, `C ≥ 0`
+    the global error is at most `e^{K·T}(‖x 0 − y 0‖ + C·T·dt)`. -/
+theorem global_error_accumulation_exp {E : Type*} [SeminormedAddCommGroup E] (Φ Ex : E → E) (x y : ℕ → E)
+    (K C dt T : ℝ) (hK : 0 ≤ K) (hdt : 0 ≤ dt) (hC : 0 ≤ C) (n : ℕ) (hT : n * dt = T)
+    (hx : ∀ k < n, x (k + 1) = Φ (x k)) (hy : ∀ k < n, y (k + 1) = Ex (y k))
+    (hstab : ∀ a b, ‖Φ a - Φ b‖ ≤ (1 + K * dt) * ‖a - b‖)
+    (hloc : ∀ k < n, ‖Φ (y k) - Ex (y k)‖ ≤ C * dt ^ 2) :
+    ‖x n - y n‖ ≤ Real.exp (K * T) * (‖x 0 - y 0‖ + C * T * dt) := by
+  have h1 := global_error_accumulation Φ Ex x y K C dt hK hdt n hx hy hstab hloc
+  have h2 := fan_le_exp (K * dt) ‖x 0 - y 0‖ (C * dt ^ 2) (mul_nonneg hK hdt) (norm_nonneg _) (by positivity) n
+  refine (h1.trans h2).trans (le_of_eq ?_)
+  rw [← hT]
+  have e1 : (n : ℝ) * (K * dt) = K * (n * dt) := by ring
+  have e2 : (n : ℝ) * (C * dt ^ 2) = C * (n * dt) * dt := by ring
+  rw [e1, e2]
+
+/-- **C03.7c `c03_halving`** (halving the step halves the bound) Same final time `T = n·dt = (2n)·(dt/2)`, same local
+    constant `C`, `x 0 = y 0`, `K = 0`: the bound `(2n)·C·(dt/2)²` for the fine grid is exactly half the bound `n·C·dt² = C·T·dt`
+    of the coarse grid, and the fine-grid error obeys it. -/
+theorem c03_halving {E : Type*} [SeminormedAddCommGroup E] (Φ Ex : E → E) (x y : ℕ → E) (C dt T : ℝ) (n : ℕ)
+    (hT : n * dt = T) (h0 : x 0 = y 0)
+    (hx : ∀ k < 2 * n, x (k + 1) = Φ (x k)) (hy : ∀ k < 2 * n, y (k + 1) = Ex (y k))
+    (hstab : ∀ a b, ‖Φ a - Φ b‖ ≤ ‖a - b‖)
+    (hloc : ∀ k < 2 * n, ‖Φ (y k) - Ex (y k)‖ ≤ C * (dt / 2) ^ 2) :
+    ((2 * n : ℕ) : ℝ) * (C * (dt / 2) ^ 2) = (n * (C * dt ^ 2)) / 2
+    ∧ (n : ℝ) * (C * dt ^ 2) = C * T * dt
+    ∧ ‖x (2 * n) - y (2 * n)‖ ≤ (C * T * dt) / 2 := by
+  have hT2 : ((2 * n : ℕ) : ℝ) * (dt / 2) = T := by push_cast; rw [← hT]; ring
+  obtain ⟨h1, h2⟩ := global_error_accumulation_contractive Φ Ex x y C (dt / 2) T (2 * n) hT2 hx hy hstab hloc
+  refine ⟨by push_cast; ring, by rw [← hT]; ring, ?_⟩
+  rw [h2, h0, sub_self, norm_zero, zero_add] at h1
+  refine h1.trans (le_of_eq ?_)
+  ring
+
+/-- non-vacuity with concrete numbers (`C = 1/2 > 0`): test equation `x' = −x`, `dt = 1/10`, scheme `Φ x = (1 − dt)x = (9/10)x`,
+    stand-in for the exact flow `E x = (1 − dt + dt²/2)x = (181/200)x`, `x 0 = y 0 = 1`.  The hypotheses of
+    `global_error_accumulation_contractive` hold (`|Φ a − Φ b| = (9/10)|a − b|`, local error `(1/200)(181/200)ᵏ ≤ ½·dt²`), so the
+    theorem gives `|(9/10)ⁿ − (181/200)ⁿ| ≤ n/200`. -/
+example (n : ℕ) : |(9 / 10 : ℝ) ^ n - (181 / 200) ^ n| ≤ n * (1 / 2 * (1 / 10) ^ 2) := by
+  have h := (global_error_accumulation_contractive (fun x : ℝ => 9 / 10 * x) (fun x : ℝ => 181 / 200 * x)
+    (fun k => (9 / 10 : ℝ) ^ k) (fun k => (181 / 200 : ℝ) ^ k) (1 / 2) (1 / 10) (n * (1 / 10)) n rfl
+    (fun k _ => by ring) (fun k _ => by ring)
+    (fun a b => by
+      rw [← mul_sub, Real.norm_eq_abs, Real.norm_eq_abs, abs_mul]
+      have : |(9 / 10 : ℝ)| = 9 / 10 := abs_of_nonneg (by norm_num)
+      rw [this]
+      nlinarith [abs_nonneg (a - b)])
+    (fun k _ => by
+      have e : (9 / 10 : ℝ) * (181 / 200) ^ k - 181 / 200 * (181 / 200) ^ k = -(1 / 200) * (181 / 200) ^ k := by ring
+      have hp : (181 / 200 : ℝ) ^ k ≤ 1 := pow_le_one₀ (by norm_num) (by norm_num)
+      have hp0 : (0 : ℝ) ≤ (181 / 200) ^ k := by positivity
+      show ‖(9 / 10 : ℝ) * (181 / 200) ^ k - 181 / 200 * (181 / 200) ^ k‖ ≤ 1 / 2 * (1 / 10) ^ 2
+      rw [e, Real.norm_eq_abs, abs_mul, abs_of_nonneg hp0]
+      have : |(-(1 / 200) : ℝ)| = 1 / 200 := by rw [abs_neg]; exact abs_of_nonneg (by norm_num)
+      rw [this]
+      nlinarith)).1
+  simpa using h
+
+end Yaqs.Accumulate
+
+namespace Yaqs.Consistency
+
+open Matrix NormedSpace Yaqs.MasterEq
+
+variable {n : Type} [Fintype n] [DecidableEq n]
+
+/-- **C03.8a `c03_local_bound_pointwise`** (what xa01's theorems supply for the local-error hypothesis of the next theorem)
+    In the max-entry seminorm `entrySeminorm M = max_{ij}|M i j|`: for every unit vector `ψ` there are `C ≥ 0`, `δ > 0` with
+    `entrySeminorm (E(t) − exp(t𝓛)ψψ†) ≤ C·t²` on `[0, δ]`, for every smooth no-jump family (analog step), in particular for the
+    digital noise step `A = digitalDiss Ls`, `H = 0`, `t = s` the strength scale.  The constants depend on `ψ`. -/
+theorem c03_local_bound_pointwise {H : Matrix n n ℂ} {Ls : List (Proc (Matrix n n ℂ))} {A : ℝ → Matrix n n ℂ}
+    (hA : IsNoJumpFamily H Ls A) (hS : SmoothFamily A) (hH : Hᴴ = H) (hγ : ∀ p ∈ Ls, 0 ≤ p.gamma) (ψ : n → ℂ)
+    (hψ : star ψ ⬝ᵥ ψ = 1) :
+    (∃ C δ : ℝ, 0 ≤ C ∧ 0 < δ ∧ ∀ t, 0 ≤ t → t ≤ δ →
+      entrySeminorm (pureAverage Ls (A t *ᵥ ψ) - lindFlow H Ls t (vecMulVec ψ (star ψ))) ≤ C * t ^ 2)
+    ∧ ∃ C δ : ℝ, 0 ≤ C ∧ 0 < δ ∧ ∀ s, 0 ≤ s → s ≤ δ →
+      entrySeminorm (pureAverage Ls (digitalDiss Ls s *ᵥ ψ) - lindFlow 0 Ls s (vecMulVec ψ (star ψ))) ≤ C * s ^ 2 := by
+  have key : ∀ {H' : Matrix n n ℂ} {A' : ℝ → Matrix n n ℂ}, IsNoJumpFamily H' Ls A' → SmoothFamily A' → H'ᴴ = H' →
+      ∃ C δ : ℝ, 0 ≤ C ∧ 0 < δ ∧ ∀ t, 0 ≤ t → t ≤ δ →
+        entrySeminorm (pureAverage Ls (A' t *ᵥ ψ) - lindFlow H' Ls t (vecMulVec ψ (star ψ))) ≤ C * t ^ 2 := by
+    intro H' A' hA' hS' hH'
+    obtain ⟨C, δ, hδ, hb⟩ := c01_local_error_quadratic hA' hS' hH' hγ ψ hψ
+    refine ⟨max C 0, δ, le_max_right _ _, hδ, fun t ht0 htδ => ?_⟩
+    have hn : 0 ≤ max C 0 * t ^ 2 := mul_nonneg (le_max_right _ _) (sq_nonneg t)
+    rw [entrySeminorm_le_iff _ hn]
+    intro i j
+    exact (hb t ht0 htδ i j).trans (mul_le_mul_of_nonneg_right (le_max_left _ _) (sq_nonneg t))
+  exact ⟨key hA hS hH, key (noJump_digital Ls) (smooth_digital Ls) (by simp)⟩
+
+omit [DecidableEq n] in
+/-- **C03.8 `c03_first_order_global`** (the trajectory average on the whole grid is first-order accurate) `N` any seminorm on
+    matrices (trace norm, max-entry norm …), `A` the no-jump propagator family of the solver (`c01_noJump_families`; for the
+    digital noise step `H = 0`, `A = digitalDiss Ls`, `dt = s`), `ens k` the trajectory ensemble after `k` steps:
+    finitely many weighted unit vectors, `ensState (ens (k+1)) = Σ_i w_i · pureAverage Ls (A dt ψ_i)`.
+    If the local error of one step is `≤ C·dt²` in `N` for every unit vector (shape: theorem `c03_local_bound_pointwise`;
+    uniformity of `C`: assumption) and `exp(dt𝓛)` is `(1+K·dt)`-stable in `N` (assumption; `K = 0` in trace norm), then after
+    `m` steps, `T = m·dt`, the trajectory average is within `e^{K·T}·C·T·dt` of the Lindblad solution `exp(T𝓛)ρ₀`
+    (plus `e^{K·T}` times the initial discrepancy, zero when `ensState (ens 0) = ρ₀`). -/
+theorem c03_first_order_global (N : Seminorm ℝ (Matrix n n ℂ)) (H : Matrix n n ℂ) (Ls : List (Proc (Matrix n n ℂ)))
+    (A : ℝ → Matrix n n ℂ) (dt K C T : ℝ) (hK : 0 ≤ K) (hdt : 0 ≤ dt) (hC : 0 ≤ C) (m : ℕ) (hT : m * dt = T)
+    (ens : ℕ → Ens n) (ρ₀ : Matrix n n ℂ)
+    (hens : ∀ k < m, IsEnsemble (ens k))
+    (hstep : ∀ k < m, ensState (ens (k + 1)) = ensStep Ls (A dt) (ens k))
+    (hloc : ∀ ψ : n → ℂ, star ψ ⬝ᵥ ψ = 1 →
+      N (pureAverage Ls (A dt *ᵥ ψ) - lindFlow H Ls dt (vecMulVec ψ (star ψ))) ≤ C * dt ^ 2)
+    (hstab : ∀ M, N (lindFlow H Ls dt M) ≤ (1 + K * dt) * N M) :
+    N (ensState (ens m) - lindFlow H Ls T ρ₀)
+      ≤ Real.exp (K * T) * (N (ensState (ens 0) - ρ₀) + C * T * dt)
+    ∧ (ensState (ens 0) = ρ₀ → N (ensState (ens m) - lindFlow H Ls T ρ₀) ≤ (Real.exp (K * T) * C * T) * dt) := by
+  have hy : ∀ k < m, (fun k : ℕ => lindFlow H Ls (k * dt) ρ₀) (k + 1)
+      = (lindFlow H Ls dt : Matrix n n ℂ →ₗ[ℝ] Matrix n n ℂ) ((fun k : ℕ => lindFlow H Ls (k * dt) ρ₀) k) := by
+    intro k _
+    show lindFlow H Ls ((k + 1 : ℕ) * dt) ρ₀ = lindFlow H Ls dt (lindFlow H Ls (k * dt) ρ₀)
+    rw [← lindFlow_add]
+    congr 2
+    push_cast
+    ring
+  have h := ens_global N (lindFlow H Ls dt : Matrix n n ℂ →ₗ[ℝ] Matrix n n ℂ) Ls (A dt) dt K C hK hdt hC m ens
+    (fun k : ℕ => lindFlow H Ls (k * dt) ρ₀) hens hstep hy hloc hstab
+  have h' : N (ensState (ens m) - lindFlow H Ls T ρ₀)
+      ≤ Real.exp (K * T) * (N (ensState (ens 0) - ρ₀) + C * T * dt) := by
+    have := h
+    simp only [Nat.cast_zero, zero_mul, lindFlow_zero, hT] at this
+    exact this
+  refine ⟨h', fun h0 => ?_⟩
+  rw [h0, sub_self, map_zero, zero_add] at h'
+  refine h'.trans (le_of_eq ?_)
+  ring
+
+/-- **C03.8b `c03_first_order_global_entry`** the same with both hypotheses and conclusion written entry by entry — the form of
+    `c01_local_error_quadratic` / `c03_local_error_quadratic`: if every entry of every unit vector's one-step error is `≤ C·dt²`,
+    and `exp(dt𝓛)` is `(1+K·dt)`-stable in the max-entry norm, then every entry of
+    (trajectory average after `m` steps) − `exp(T𝓛)ρ₀` is `≤ e^{K·T}·C·T·dt`. -/
+theorem c03_first_order_global_entry (H : Matrix n n ℂ) (Ls : List (Proc (Matrix n n ℂ)))
+    (A : ℝ → Matrix n n ℂ) (dt K C T : ℝ) (hK : 0 ≤ K) (hdt : 0 ≤ dt) (hC : 0 ≤ C) (m : ℕ) (hT : m * dt = T)
+    (ens : ℕ → Ens n)
+    (hens : ∀ k < m, IsEnsemble (ens k))
+    (hstep : ∀ k < m, ensState (ens (k + 1)) = ensStep Ls (A dt) (ens k))
+    (hloc : ∀ ψ : n → ℂ, star ψ ⬝ᵥ ψ = 1 → ∀ i j,
+      ‖(pureAverage Ls (A dt *ᵥ ψ) - lindFlow H Ls dt (vecMulVec ψ (star ψ))) i j‖ ≤ C * dt ^ 2)
+    (hstab : ∀ M, entrySeminorm (lindFlow H Ls dt M) ≤ (1 + K * dt) * entrySeminorm M) :
+    ∀ i j, ‖(ensState (ens m) - lindFlow H Ls T (ensState (ens 0))) i j‖ ≤ (Real.exp (K * T) * C * T) * dt := by
+  intro i j
+  have h := (c03_first_order_global entrySeminorm H Ls A dt K C T hK hdt hC m hT ens (ensState (ens 0)) hens hstep
+    (fun ψ hψ => (entrySeminorm_le_iff _ (by positivity)).mpr (hloc ψ hψ)) hstab).2 rfl
+  exact (entry_le_entrySeminorm _ i j).trans h
+
+/-- non-vacuity of the ensemble hypotheses: the one-member ensemble `{(1, |1⟩)}` of the C01 example is an ensemble, its state is
+    `|1⟩⟨1|`, and with `m = 0` steps the theorem's conclusion is the trivial `0 ≤ 0` -/
+example : IsEnsemble ([(1, cxPsi)] : Ens (Fin 2)) ∧ ensState ([(1, cxPsi)] : Ens (Fin 2)) = vecMulVec cxPsi (star cxPsi) := by
+  refine ⟨⟨?_, by simp⟩, by simp [ensState]⟩
+  intro e he
+  simp only [List.mem_singleton] at he
+  subst he
+  exact ⟨zero_le_one, by simp [cxPsi, dotProduct, Fin.sum_univ_two]⟩
 
 end Yaqs.Consistency
